@@ -341,4 +341,63 @@ def selftest_npvalues(_p=None):
                     return {'ok': False, 'detail': 'comparisons'}
             if not np.issubdtype(real.dtype, np.integer) or not npv.issubdtype(stub.dtype, npv.integer):
                 return {'ok': False, 'detail': 'issubdtype'}
+    # float64 arrays of integer-valued numbers (|v| <= 2**50) and NaN: diff, unique (one NaN, last), median, min / max,
+    # comparisons, the tolerance expression - numpy's NaN semantics vs the NAN sentinel
+    import math
+    import warnings
+
+    def same(x, y):
+        if y is npv.NAN:
+            return isinstance(x, float) and math.isnan(x)
+        return x == y
+    for _ in range(600):
+        n = rnd.randrange(1, 6)
+        vals = [rnd.choice([None, None, 0, 1, -1, 2 ** 50, -2 ** 50, rnd.randrange(-50, 50), rnd.randrange(-2 ** 50, 2 ** 50)]) for _ in range(n)]
+        real = np.array([float('nan') if v is None else float(v) for v in vals], dtype=np.float64)
+        stub = npv.VArr([npv.NAN if v is None else v for v in vals], npv.float64)
+        cases += 1
+        if np.issubdtype(real.dtype, np.integer) or npv.issubdtype(stub.dtype, npv.integer):
+            return {'ok': False, 'detail': 'float issubdtype'}
+        with warnings.catch_warnings():
+            warnings.simplefilter('ignore')
+            if not same(real.min().item(), stub.min()) or not same(real.max().item(), stub.max()):
+                return {'ok': False, 'detail': f'float min/max {vals}'}
+            if n < 2:
+                continue
+            d, sd = np.diff(real), npv.diff(stub)
+            if len(d) != len(sd.vals) or not all(same(d[i].item(), sd.vals[i]) for i in range(len(d))):
+                return {'ok': False, 'detail': f'float diff {vals}'}
+            u, su = np.unique(d), npv.unique(sd)
+            if len(u) != len(su.vals) or not all(same(u[i].item(), su.vals[i]) for i in range(len(u))):
+                return {'ok': False, 'detail': f'float unique {vals}: {u.tolist()} vs {su.vals}'}
+            for (ra, sa) in (((u == 0).all(), (su == 0).all()), ((u >= 0).all(), (su >= 0).all()), ((u <= 0).all(), (su <= 0).all())):
+                if bool(ra) != bool(sa):
+                    return {'ok': False, 'detail': f'float comparisons {vals}'}
+            m, sm = np.median(d).item(), npv.median(sd).item()
+            if math.isnan(m) != (sm is npv.NAN):
+                return {'ok': False, 'detail': f'float median nan {vals}'}
+            if (m == 0) != bool(sm == 0):
+                return {'ok': False, 'detail': f'float median == 0 {vals}'}
+            if m != 0:
+                npv.EXACT_TOL[0] = True
+                try:
+                    rdev = (1 - u / m) ** 2
+                    sdev = (1 - su / sm) ** 2
+                    rl, rg = (rdev < 0.001), (rdev >= 0.001)
+                    for tol in (False, True):
+                        npv.TOLERANCE_ORACLE[0] = tol
+                        sl, sg = (sdev < 0.001), (sdev >= 0.001)
+                        for i in range(len(u)):
+                            if math.isnan(rdev[i]):
+                                if sl.vals[i] or sg.vals[i]:
+                                    return {'ok': False, 'detail': f'NaN deviation compares True {vals}'}
+                            else:
+                                if bool(sl.vals[i]) == bool(sg.vals[i]):
+                                    return {'ok': False, 'detail': f'< and >= not complementary {vals}'}
+                                # outside the band the stub decides; it must agree with the float computation
+                                if abs(float(rdev[i]) - 0.001) > 1e-4 and bool(sl.vals[i]) != bool(rl[i]):
+                                    return {'ok': False, 'detail': f'tolerance outcome {vals}'}
+                finally:
+                    npv.EXACT_TOL[0] = False
+                    npv.TOLERANCE_ORACLE[0] = False
     return {'ok': True, 'cases': cases}
